@@ -211,6 +211,59 @@ func C10(tier string) int {
 			fams = append(fams, fam{fmt.Sprintf("%s-type-member-%d", side, ti), &Scenario{Name: "type-array", Kind: ap.Both, Entry: side, URL: url, Body: d}, want, "known-type-among-several"})
 		}
 	}
+	// several actors of which the application blocks a subset: 403 iff one of them is blocked, whatever
+	// its position and however often the others are repeated (every sequence of 1..3 (thorough 4) actors)
+	{
+		alpha := []string{Carol, Dave, Erin}
+		maxA := 3
+		if res.Thorough() {
+			maxA = 4
+		}
+		var seqs [][]string
+		var gen func(cur []string)
+		gen = func(cur []string) {
+			if len(cur) > 0 {
+				seqs = append(seqs, append([]string(nil), cur...))
+			}
+			if len(cur) == maxA {
+				return
+			}
+			for _, a := range alpha {
+				gen(append(cur, a))
+			}
+		}
+		gen(nil)
+		for _, blocked := range [][]string{{Erin}, {Dave, Erin}, {Carol}} {
+			blocked := blocked
+			for _, sq := range seqs {
+				hit := false
+				acts := L{}
+				for i, a := range sq {
+					for _, b := range blocked {
+						if a == b {
+							hit = true
+						}
+					}
+					if i%2 == 1 {
+						acts = append(acts, Emb("Person", a))
+					} else {
+						acts = append(acts, a)
+					}
+				}
+				want := "[200]"
+				if hit {
+					want = "[403]"
+				}
+				d := Doc("Like", RAct, "actor", val1(acts), "object", Note1)
+				fams = append(fams, fam{fmt.Sprintf("inbox-actors-%v-blocked-%v", shortIDs(sq), shortIDs(blocked)),
+					&Scenario{Name: "blocked-among-several", Kind: ap.Both, Entry: "PostInbox", URL: inbox(Alice), Body: d, Tweak: func(a *ap.App) {
+						for _, b := range blocked {
+							a.BlockedSet[b] = true
+						}
+					}}, want, "blocked-among-several"})
+			}
+		}
+	}
 	rn := Emb("Note", "https://r1.example/n/10", "attributedTo", Carol, "content", "x")
 	objTypes := []string{"Create", "Update", "Delete", "Follow", "Add", "Remove", "Like", "Undo", "Block"}
 	absent := []struct {
@@ -452,7 +505,7 @@ func C10(tier string) int {
 	res.Extra["fault_bound_completed"] = bound
 	res.Extra["request_product"] = len(cases)
 	res.Extra["id_and_required_member_cases"] = len(fams)
-	res.Rule = fmt.Sprintf("(1) C07's request product (%d requests); (2) %d inbox/outbox bodies varying 'id' over {absent,null,\"\",number,object,array,relative,absolute-path,absolute IRI} and object/target over {absent,[]} for every type that requires them, multi-valued 'type' members mixing unknown extension types with a known one (400 only if no entry names a known type), and activities whose application callback (DefaultCallback for unhandled types, a wrapped or 'other' hook for handled ones) answers with the documented ErrObjectRequired / ErrTargetRequired sentinel; (3) each of %d corpus scenarios (incl. application hooks that log / fail / re-enter, and every POST scenario started from the state an earlier request of the same kind left behind) fault-free and with every choice of <= %d failing seam calls; (4) each corpus scenario again through PostInboxScheme / PostOutboxScheme / NewActivityStreamsHandlerScheme in a world whose own IRIs are http://: same outcome, status, Location, body and final state as the default entry point (modulo the scheme), trichotomy under single faults; every outbox scenario also with the endpoint scheme and the scheme of the minted ids differing (http / https and https / http): same status, Location = newest outbox entry = stored id; (5) every sequence of 2-3 (thorough 4) read requests over {handler: live value, Tombstone, value with collections, missing, value with hidden recipients, non-ActivityPub; GetInbox; GetOutbox} on ONE application and one handler value, each answered as when served alone; oracle = counting ResponseWriter + return values; distinct = (case class, outcome) or (scenario, choice list)", len(cases), len(fams), len(corpus), bound)
+	res.Rule = fmt.Sprintf("(1) C07's request product (%d requests); (2) %d inbox/outbox bodies varying 'id' over {absent,null,\"\",number,object,array,relative,absolute-path,absolute IRI} and object/target over {absent,[]} for every type that requires them, multi-valued 'type' members mixing unknown extension types with a known one (400 only if no entry names a known type), every sequence of 1..3 (thorough 4) actors - IRI / embedded alternating - over three peers of which the application blocks a subset (403 iff one of them is blocked), and activities whose application callback (DefaultCallback for unhandled types, a wrapped or 'other' hook for handled ones) answers with the documented ErrObjectRequired / ErrTargetRequired sentinel; (3) each of %d corpus scenarios (incl. application hooks that log / fail / re-enter, and every POST scenario started from the state an earlier request of the same kind left behind) fault-free and with every choice of <= %d failing seam calls; (4) each corpus scenario again through PostInboxScheme / PostOutboxScheme / NewActivityStreamsHandlerScheme in a world whose own IRIs are http://: same outcome, status, Location, body and final state as the default entry point (modulo the scheme), trichotomy under single faults; every outbox scenario also with the endpoint scheme and the scheme of the minted ids differing (http / https and https / http): same status, Location = newest outbox entry = stored id; (5) every sequence of 2-3 (thorough 4) read requests over {handler: live value, Tombstone, value with collections, missing, value with hidden recipients, non-ActivityPub; GetInbox; GetOutbox} on ONE application and one handler value, each answered as when served alone; oracle = counting ResponseWriter + return values; distinct = (case class, outcome) or (scenario, choice list)", len(cases), len(fams), len(corpus), bound)
 	res.Assumptions = []string{"a denying Authenticate* writes its own 401 (counted as the one status of that request)", "ResponseWriter itself never fails",
 		"Announce/Accept/Reject without object are not asserted (neither code nor documentation requires one)"}
 	return res.Finish()
